@@ -111,3 +111,18 @@ Theorem export_minified_injective : forall c1 c2, 0 <= c1 -> 0 <= c2 ->
   fst (NextMinifiedName c1) = fst (NextMinifiedName c2) -> c1 = c2.
 Proof. exact NextMinifiedName_inj. Qed.
 Print Assumptions export_minified_injective.
+
+(* REFUTED (genuine defect, known finding C15-with-pinned-nested-name-captured-by-minified-name):
+   "a minified name never equals the name of a pinned symbol visible in the
+   same scope".  ComputeReservedNames does not reserve names pinned in nested
+   scopes outside direct-eval chains (e.g. names referenced inside `with`);
+   the witness is a well-formed module in which the pinned symbol 0 and the
+   renamed symbol 1 are visible together and both end up named "a".  What does
+   hold is minify_names_distinct_and_admissible: no name of the reserved set
+   that was actually computed is ever chosen. *)
+Theorem minify_avoids_pinned_nested_refuted :
+  wf_slots wp_syms wp_module = true /\
+  In [1%nat; 0%nat] (slot_vis_forest (sc_children wp_module) (module_top wp_module)) /\
+  wp_names = Some ([97], [97]).
+Proof. exact minify_pinned_nested_collision. Qed.
+Print Assumptions minify_avoids_pinned_nested_refuted.
